@@ -373,6 +373,16 @@ func (g *gen) elngPayload() []byte {
 	if g.hostile("elng:short", 15) {
 		s = g.pick("elng:badlang", "x", "")
 	}
+	if g.pct("elng:legacy", 20) {
+		// the form without version and flags, which the decoder takes for payloads under 7 bytes
+		w = &wr{}
+		s = g.pick("elng:legacylang", "en", "sv", "und", "en-US", "x")
+		if g.hostile("elng:legacynoterm", 25) {
+			s = g.pick("elng:legacyfill", "en-US0", "000000", "unden", "sv")
+			return w.str(s).b
+		}
+		return w.cstr(s).b
+	}
 	if g.hostile("elng:noterm", 20) {
 		return w.str(s).b
 	}
